@@ -35,6 +35,8 @@ def random_style(rng):
         # as tuples, so their spacing is free
         "addr_spelling": rng.choice(["(%d, %d)", "(%d, %d)", "(%d,%d)",
                                      "( %d, %d )", "(%d,  %d)"]),
+        # identical host configurations written once (YAML anchor + aliases)
+        "share_identical_host_cfgs": rng.random() < 0.3,
     }
 
 
@@ -171,8 +173,21 @@ def c17_doc(acc, text, feats, label, rng, steps):
         subj = Subject(ref, route="yaml", scenario=env.scenario)
         subj.env = env
         subj.actions = list(env.action_space.actions)
-        from ..spec import describe_action
+        from ..spec import describe_action, flat_descriptors
+        from .api import action_signature, desc_signature
         subj.descs = [describe_action(ref, a) for a in subj.actions]
+        # the actions the environment offers are the ones the file defines
+        got = [action_signature(a) for a in subj.actions]
+        want = [desc_signature(d) for d in flat_descriptors(ref)]
+        if got != want:
+            k = next((i for i in range(min(len(got), len(want)))
+                      if got[i] != want[i]), min(len(got), len(want)))
+            acc.violation("actions_differ_from_file",
+                          "actions_differ_from_file",
+                          {"index": k,
+                           "environment": got[k] if k < len(got) else None,
+                           "file": want[k] if k < len(want) else None}, wit)
+        acc.count("action_lists_compared_with_file")
         sub = Acc("C17")
         m1, m2 = C01(sub), C02(sub)
         subj.reset()
@@ -523,6 +538,15 @@ def _host_fw(make):
                 d = _cp(doc)
                 d["host_configurations"][k]["firewall"] = fw
                 out.append((f"{k} {label}", d))
+                if isinstance(fw, dict) and len(_hosts(doc)) > 1:
+                    # ... and the same malformed entry after a valid one
+                    first = _hosts(doc)[0]
+                    if first in fw:
+                        continue
+                    d2 = _cp(doc)
+                    d2["host_configurations"][k]["firewall"] = dict(
+                        [(first, [doc["services"][0]])] + list(fw.items()))
+                    out.append((f"{k} {label} (second entry)", d2))
         return out
     return f
 
